@@ -6,6 +6,9 @@ From Coq Require Import List String NArith ZArith Bool Arith.
 From FB.Base Require Import PyVal Fs.
 From FB.Gen Require Import JsonUtilGen.
 From FB.Model Require Import Types Monad CreatedFiles BuildDirs SimpleOps Builder.
+From FB.Spec Require Import Prog.
+From FB.Model Require Import Build Run Dsl.
+From FB.Proofs Require Import ReplayLaws BuildFileLaws HashMemoInv.
 From FB.Gen Require Import OpsGen.
 Import ListNotations.
 Open Scope list_scope.
@@ -22,6 +25,21 @@ Qed.
 Lemma og_bind_assoc : forall {A B C} (m : M A) (f : A -> M B) (g : B -> M C) w,
   bind (bind m f) g w = bind m (fun a => bind (f a) g) w.
 Proof. intros. unfold bind. destruct (m w) as [w' [a|e]]; reflexivity. Qed.
+
+Lemma og_bind_unf : forall {A B} (m : M A) (f : A -> M B) w,
+  bind m f w = match m w with (w', inl a) => f a w' | (w', inr e) => (w', inr e) end.
+Proof. reflexivity. Qed.
+
+Lemma og_ret_unf : forall {A} (a : A) w, ret a w = (w, inl a).
+Proof. reflexivity. Qed.
+Lemma og_raise_unf : forall {A} (e : exn) w, @raise A e w = (w, inr e).
+Proof. reflexivity. Qed.
+Lemma og_attempt_unf : forall {A} (m : M A) w, attempt m w = match m w with (w', r) => (w', inl r) end.
+Proof. reflexivity. Qed.
+Lemma og_catch_unf : forall {A} (m : M A) h w,
+  catch m h w = match m w with (w', inl a) => (w', inl a) | (w', inr e) => h e w' end.
+Proof. reflexivity. Qed.
+Ltac mred := repeat (progress (rewrite ?og_bind_unf, ?og_ret_unf, ?og_raise_unf, ?og_attempt_unf, ?og_catch_unf; cbv beta iota)).
 
 Lemma og_bind_ret_r : forall {A} (m : M A) w, bind m (fun a => ret a) w = m w.
 Proof. intros. unfold bind, ret. destruct (m w) as [w' [a|e]]; reflexivity. Qed.
@@ -363,3 +381,908 @@ Proof.
   intros so b w H. unfold gen_fb_priv_exec_simple_operation.
   unfold bbind at 1. rewrite gen_fb_priv_assert_not_finished_stale by exact H. reflexivity.
 Qed.
+
+(* what a query method gives: the result of m_query, the record appended to the builder's suboperations *)
+Definition query_result (q : query) (b : bstate) (w : world) : (bstate * world) * (pyval + exn) :=
+  let '(w1, (r, o)) := m_query q w in ((app_sub b o, w1), r).
+
+Lemma gen_fb_list_dir_eq : forall p b w, not_finished b -> gen_fb_list_dir p b w = query_result (QListDir p) b w.
+Proof. intros. apply gen_fb_priv_exec_simple_operation_eq; assumption. Qed.
+Lemma gen_fb_walk_eq : forall p td b w, not_finished b -> gen_fb_walk p td b w = query_result (QWalk p td) b w.
+Proof. intros. apply gen_fb_priv_exec_simple_operation_eq; assumption. Qed.
+Lemma gen_fb_is_file_eq : forall p b w, not_finished b -> gen_fb_is_file p b w = query_result (QIsFile p) b w.
+Proof. intros. apply gen_fb_priv_exec_simple_operation_eq; assumption. Qed.
+Lemma gen_fb_is_dir_eq : forall p b w, not_finished b -> gen_fb_is_dir p b w = query_result (QIsDir p) b w.
+Proof. intros. apply gen_fb_priv_exec_simple_operation_eq; assumption. Qed.
+Lemma gen_fb_exists_eq : forall p b w, not_finished b -> gen_fb_exists p b w = query_result (QExists p) b w.
+Proof. intros. apply gen_fb_priv_exec_simple_operation_eq; assumption. Qed.
+Lemma gen_fb_get_size_eq : forall p b w, not_finished b -> gen_fb_get_size p b w = query_result (QGetSize p) b w.
+Proof. intros. apply gen_fb_priv_exec_simple_operation_eq; assumption. Qed.
+
+(* read_text / read_binary: the query, then open(): the content stands for the file object *)
+Definition read_result (p : path) (c : cmpmode) (b : bstate) (w : world) : (bstate * world) * (pyval + exn) :=
+  let '(w1, (r, o)) := m_query (QRead p c) w in
+  match r with
+  | inl _ => ((app_sub b o, fst (m_open_read p w1)), snd (m_open_read p w1))
+  | inr e => ((app_sub b o, w1), inr e)
+  end.
+
+Lemma gen_fb_read_text_eq : forall p c b w, not_finished b -> gen_fb_read_text p c b w = read_result p c b w.
+Proof.
+  intros p c b w H. unfold gen_fb_read_text, read_result. cbv zeta. unfold bbind.
+  rewrite gen_fb_priv_exec_simple_operation_eq by exact H.
+  destruct (m_query (QRead p c) w) as [w1 [[v|e] o]]; [|reflexivity].
+  unfold lift. destruct (m_open_read p w1) as [w2 r]. reflexivity.
+Qed.
+
+Lemma gen_fb_read_binary_eq : forall p c b w, not_finished b -> gen_fb_read_binary p c b w = read_result p c b w.
+Proof. exact gen_fb_read_text_eq. Qed.
+
+(* declare_read: the query, nothing returned *)
+Lemma gen_fb_declare_read_eq : forall p c b w, not_finished b ->
+  gen_fb_declare_read p c b w
+  = let '(w1, (r, o)) := m_query (QRead p c) w in
+    ((app_sub b o, w1), match r with inl _ => inl tt | inr e => inr e end).
+Proof.
+  intros p c b w H. unfold gen_fb_declare_read, bbind.
+  rewrite gen_fb_priv_exec_simple_operation_eq by exact H.
+  destruct (m_query (QRead p c) w) as [w1 [[v|e] o]]; reflexivity.
+Qed.
+
+(* every query method of a finished builder raises (Model/Run.v: the [stale] flag of Ask) *)
+Lemma gen_fb_queries_stale : forall p c td b w, ~ not_finished b ->
+  let r := ((b, w), inr (XRuntime RFinished)) in
+  gen_fb_list_dir p b w = r /\ gen_fb_walk p td b w = r /\ gen_fb_is_file p b w = r /\ gen_fb_is_dir p b w = r /\
+  gen_fb_exists p b w = r /\ gen_fb_get_size p b w = r /\ gen_fb_read_text p c b w = r /\
+  gen_fb_read_binary p c b w = r.
+Proof.
+  intros p c td b w H r. subst r.
+  repeat split; try (apply gen_fb_priv_exec_simple_operation_stale; exact H);
+    unfold gen_fb_read_text, gen_fb_read_binary; cbv zeta; unfold bbind;
+    rewrite gen_fb_priv_exec_simple_operation_stale by exact H; reflexivity.
+Qed.
+
+(* ================= the cache lookups ================= *)
+
+(* the table of files of the previous cache holds BuildFileOperations, its table of subbuilds SubbuildOperations
+   (true of every cache Cache.read_immutable returns and of the empty cache) *)
+Definition old_typed (c : cache) : Prop :=
+  (forall p, match cache_get_file c p with Some (OBuildFile _ _ _ _ _ _ _ _ _ _) | None => True | _ => False end) /\
+  (forall k, match cache_get_subbuild c k with Some (OSubbuild _ _ _ _ _ _ _) | None => True | _ => False end).
+
+Lemma gen_fb_priv_build_file_cache_lookup_eq : forall o w, r_kind o = KBuildFile -> old_typed (w_old w) ->
+  gen_fb_priv_build_file_cache_lookup (bs o) w
+  = lift (build_file_cache_lookup (r_filename o) (r_func_name o) (r_args o) (r_kwargs o)) (bs o) w.
+Proof.
+  intros o w K [Hty _]. specialize (Hty (r_filename o)).
+  unfold gen_fb_priv_build_file_cache_lookup, build_file_cache_lookup. bm_unfold.
+  unfold get, bind at 1. cbv beta iota zeta. cbn [b_op]. rewrite K. cbv beta iota.
+  destruct (cache_get_file (w_old w) (r_filename o)) as [[q r e | p' c' f' a' k' subs' r' cr' ra' sf' | f a k subs r ra sf]|];
+    try (destruct Hty); [|reflexivity].
+  unfold version_equal. unfold bind, get, ret. cbv beta iota.
+  destruct ra'; cbn [negb andb b_op]; cbv beta iota; [reflexivity|].
+  destruct (String.eqb f' (r_func_name o)); cbn [negb andb]; [|reflexivity].
+  destruct (is_equal (func_version (w_old w) (r_func_name o)) (func_version (w_new w) (r_func_name o)));
+    cbn [negb andb]; [|reflexivity].
+  destruct (is_equal a' (r_args o)); cbn [negb andb]; [|reflexivity].
+  destruct (is_equal k' (r_kwargs o)); cbn [negb andb]; [|reflexivity].
+  rewrite gen_fb_priv_is_build_file_cached_eq.
+  destruct (is_build_file_cached p' c' cr' w) as [w1 [ok|e]]; [|reflexivity].
+  destruct ok; cbn [negb]; [|reflexivity].
+  rewrite gen_fb_priv_are_suboperations_cached_eq by exact I. cbn [op_subs].
+  destruct (are_subs_cached subs' cf_empty w1) as [w2 [r2|e]]; [|reflexivity].
+  destruct (fst r2); reflexivity.
+Qed.
+
+Lemma gen_fb_priv_subbuild_cache_lookup_eq : forall o key w, old_typed (w_old w) ->
+  gen_fb_priv_subbuild_cache_lookup key (bs o) w = lift (subbuild_cache_lookup key (r_func_name o)) (bs o) w.
+Proof.
+  intros o key w [_ Hty]. specialize (Hty key). unfold cache_get_subbuild in Hty.
+  unfold gen_fb_priv_subbuild_cache_lookup, subbuild_cache_lookup, cache_get_subbuild. bm_unfold.
+  unfold get, bind at 1. cbv beta iota zeta. cbn [b_op].
+  destruct (subs_get (c_subs (w_old w)) key) as [[[q r e | p' c' f' a' k' subs' r' cr' ra' sf' | f a k subs r ra sf]|]|];
+    try (destruct Hty); try reflexivity.
+  unfold version_equal. unfold bind, get, ret. cbv beta iota.
+  destruct ra; cbn [negb andb b_op]; cbv beta iota; [reflexivity|].
+  destruct (is_equal (func_version (w_old w) (r_func_name o)) (func_version (w_new w) (r_func_name o)));
+    cbn [negb andb]; [|reflexivity].
+  rewrite gen_fb_priv_are_suboperations_cached_eq by exact I. cbn [op_subs].
+  destruct (are_subs_cached subs cf_empty w) as [w2 [r2|e]]; [|reflexivity].
+  destruct (fst r2); reflexivity.
+Qed.
+
+(* the lookups only hand out records of their class *)
+Lemma build_file_cache_lookup_complex : forall p f a k w w1 co,
+  build_file_cache_lookup p f a k w = (w1, inl (Some co)) -> is_complex co.
+Proof.
+  intros p f a k w w1 co H. unfold build_file_cache_lookup in H. unfold bind at 1, get at 1 in H. cbv beta iota in H.
+  destruct (cache_get_file (w_old w) p) as [[q r e | p' c' f' a' k' subs' r' cr' ra' sf' | f0 a0 k0 subs r ra sf]|];
+    try discriminate.
+  destruct ra'; [discriminate|]. destruct (negb (f' =? f)%string); [discriminate|].
+  unfold bind at 1 in H. destruct (version_equal f w) as [w2 [ve|e]]; [|discriminate].
+  destruct (negb ve); [discriminate|]. destruct (negb (is_equal a' a)); [discriminate|].
+  destruct (negb (is_equal k' k)); [discriminate|].
+  unfold bind at 1 in H. destruct (is_build_file_cached p' c' cr' w2) as [w3 [ok|e]]; [|discriminate].
+  destruct (negb ok); [discriminate|].
+  unfold bind in H. destruct (are_subs_cached subs' cf_empty w3) as [w4 [r2|e]]; [|discriminate].
+  destruct (fst r2); inversion H; subst; exact I.
+Qed.
+
+Lemma subbuild_cache_lookup_complex : forall key f w w1 co,
+  subbuild_cache_lookup key f w = (w1, inl (Some co)) -> is_complex co.
+Proof.
+  intros key f w w1 co H. unfold subbuild_cache_lookup in H. unfold bind at 1, get at 1 in H. cbv beta iota in H.
+  destruct (subs_get (c_subs (w_old w)) key) as [[[q r e | p' c' f' a' k' subs' r' cr' ra' sf' | f0 a0 k0 subs r ra sf]|]|];
+    try discriminate.
+  destruct ra; [discriminate|].
+  unfold bind at 1 in H. destruct (version_equal f w) as [w2 [ve|e]]; [|discriminate].
+  destruct (negb ve); [discriminate|].
+  unfold bind in H. destruct (are_subs_cached subs cf_empty w2) as [w4 [r2|e]]; [|discriminate].
+  destruct (fst r2); inversion H; subst; exact I.
+Qed.
+
+(* ================= build_file: the stages, as the Python runs them ================= *)
+
+(* the record build_file_with_comparison creates *)
+Definition bf0 (p : path) (c : cmpmode) (f : string) (sa skw : pyval) : opr :=
+  new_BuildFileOperation p c f sa skw [] PNone PNone false false false.
+(* the user function of build_file takes the target; `func` of the generated code the optional target *)
+Definition lift_bf (fn : path -> pyval -> pyval -> body) : ufunc :=
+  fun t a k => match t with Some p => fn p a k | None => fn [] a k end.
+Definition lift_sb (fn : pyval -> pyval -> body) : ufunc := fun _ a k => fn a k.
+
+(* a mutable record holding the fields of o *)
+Definition opr_of (o : op) (fin : bool) : opr :=
+  match o with
+  | OBuildFile p c f a k subs r cr ra sf =>
+      {| r_kind := KBuildFile; r_filename := p; r_file_comparison := c; r_func_name := f; r_args := a; r_kwargs := k;
+         r_suboperations := subs; r_return_value := r; r_file_comparison_result := cr; r_raised := ra;
+         r_setup_failed := sf; r_is_finished := fin |}
+  | OSubbuild f a k subs r ra sf =>
+      {| r_kind := KSubbuild; r_filename := []; r_file_comparison := METADATA; r_func_name := f; r_args := a; r_kwargs := k;
+         r_suboperations := subs; r_return_value := r; r_file_comparison_result := PNone; r_raised := ra;
+         r_setup_failed := sf; r_is_finished := fin |}
+  | OSimple _ _ _ => bf0 [] METADATA "" PNone PNone
+  end.
+
+Lemma freeze_opr_of : forall o fin, is_complex o -> freeze (opr_of o fin) = o.
+Proof. intros [| |] fin H; [destruct H|reflexivity|reflexivity]. Qed.
+
+(* the `except Exception: if not suboperation.raised: raised = setup_failed = True` of build_file_with_comparison /
+   subbuild, then the record that is appended *)
+Definition final_op {A} (st : opr) (r : A + exn) : op :=
+  match r with
+  | inl _ => freeze st
+  | inr _ => if r_raised st then freeze st else freeze (set_r_setup_failed (set_r_raised st true) true)
+  end.
+
+Lemma gen_fb_priv_assert_build_file_call_valid_eq : forall o w, r_kind o = KBuildFile ->
+  gen_fb_priv_assert_build_file_call_valid (bs o) w
+  = lift (new_assert_no_file (r_filename o) ;;;
+          icf <- is_cache_file (r_filename o) ;;
+          if icf then raise (XRuntime RCacheFileTarget) else ret tt) (bs o) w.
+Proof.
+  intros o w K. unfold gen_fb_priv_assert_build_file_call_valid. bm_unfold. rewrite K. cbv zeta beta iota.
+  unfold bind, is_cache_file, get. destruct (new_assert_no_file (r_filename o) w) as [w1 [u|e]]; [|reflexivity].
+  cbn [b_op]. destruct (path_eqb (r_filename o) (w_cachefile w1)); reflexivity.
+Qed.
+
+(* _handle_error_building_file: the record is marked raised before anything can fail; it is stored when the two
+   clean-up steps went through *)
+Lemma gen_fb_priv_handle_error_building_file_eq : forall o w, r_kind o = KBuildFile ->
+  gen_fb_priv_handle_error_building_file (bs o) w
+  = let p := r_filename o in
+    let o1 := set_r_raised o true in
+    match (try_to_remove_file p ;;; m_bd_error p) w with
+    | (w1, inr e) => ((bs o1, w1), inr e)
+    | (w1, inl _) =>
+        let o2 := set_r_is_finished o1 true in
+        match new_finish_building_file p (freeze o2) w1 with (w2, r) => ((bs o2, w2), r) end
+    end.
+Proof.
+  intros o w K. unfold gen_fb_priv_handle_error_building_file. bm_unfold. rewrite K. cbv zeta beta iota.
+  cbn [b_op]. unfold bind.
+  destruct (try_to_remove_file (r_filename o) w) as [w1 [u|e]]; [|reflexivity].
+  destruct (m_bd_error (r_filename o) w1) as [w2 [u'|e]]; [|reflexivity].
+  cbn [b_op b_finished_build r_filename set_r_is_finished set_r_raised].
+  destruct (new_finish_building_file (r_filename o) _ w2) as [w3 [[]|e]]; reflexivity.
+Qed.
+
+Definition bf_fail_py (p : path) (c : cmpmode) (f : string) (sa skw : pyval) (subs : list op) (rv : pyval)
+           (e : exn) (w : world) : world * (outcome * op) :=
+  let o := OBuildFile p c f sa skw subs rv PNone true false in
+  match (try_to_remove_file p ;;; m_bd_error p ;;; new_finish_building_file p o) w with
+  | (w', inl _) => (w', (inr e, o))
+  | (w', inr e') => (w', (inr e', o))
+  end.
+
+(* after the user function: the sanitized return value is stored in the record BEFORE the output file is looked at,
+   so a record that fails there keeps it (Model/Builder.v resets it to None: bf_finish_py_differs) *)
+Definition bf_finish_py (p : path) (c : cmpmode) (f : string) (sa skw : pyval) (res : outcome) (subs : list op)
+           (w3 : world) : world * (outcome * op) :=
+  match res with
+  | inr e => bf_fail_py p c f sa skw subs PNone e w3
+  | inl v =>
+      match sanitize v with
+      | None => bf_fail_py p c f sa skw subs PNone XType w3
+      | Some sv =>
+          match noneable_cmp p c w3 with
+          | (w4, inr e) => bf_fail_py p c f sa skw subs sv e w4
+          | (w4, inl PNone) => bf_fail_py p c f sa skw subs sv (XRuntime RNotCreated) w4
+          | (w4, inl cmp) =>
+              let o := OBuildFile p c f sa skw subs sv cmp false false in
+              match new_finish_building_file p o w4 with (w5, _) => (w5, (inl sv, o)) end
+          end
+      end
+  end.
+
+Ltac rsimp :=
+  cbn [b_op b_finished_build r_kind r_filename r_file_comparison r_func_name r_args r_kwargs r_suboperations
+       r_return_value r_file_comparison_result r_raised r_setup_failed r_is_finished
+       set_r_filename set_r_file_comparison set_r_func_name set_r_args set_r_kwargs set_r_suboperations
+       set_r_return_value set_r_file_comparison_result set_r_raised set_r_setup_failed set_r_is_finished
+       fst snd app freeze op_raised op_ret op_subs].
+
+(* the handler of _rebuild_file: _handle_error_building_file(); raise *)
+Lemma rebuild_fail_path : forall p c f sa skw subs rv fin e w w5 r o,
+  bf_fail_py p c f sa skw subs rv e w = (w5, (r, o)) ->
+  exists st' e',
+    bbind gen_fb_priv_handle_error_building_file (fun _ => braise e)
+      (bs {| r_kind := KBuildFile; r_filename := p; r_file_comparison := c; r_func_name := f; r_args := sa;
+             r_kwargs := skw; r_suboperations := subs; r_return_value := rv; r_file_comparison_result := PNone;
+             r_raised := false; r_setup_failed := false; r_is_finished := fin |}) w
+    = ((bs st', w5), @inr unit exn e')
+    /\ r = inr e' /\ freeze st' = o /\ r_raised st' = true.
+Proof.
+  intros p c f sa skw subs rv fin e w w5 r o H.
+  unfold bbind. rewrite gen_fb_priv_handle_error_building_file_eq by reflexivity. cbv zeta. rsimp.
+  unfold bf_fail_py in H. cbv zeta in H. unfold bind in *.
+  destruct (try_to_remove_file p w) as [wa [u|e1]].
+  - destruct (m_bd_error p wa) as [wb [u'|e1]].
+    + rsimp.
+      destruct (new_finish_building_file p (OBuildFile p c f sa skw subs rv PNone true false) wb) as [wc [[]|e1]];
+        inversion H; subst; unfold braise; eexists; eexists; (split; [reflexivity|]); repeat split.
+    + inversion H; subst. eexists; eexists; (split; [reflexivity|]); repeat split.
+  - inversion H; subst. eexists; eexists; (split; [reflexivity|]); repeat split.
+Qed.
+
+Lemma gen_fb_priv_rebuild_file_eq : forall p c f sa skw fn w1 w3 res subs w5 r o,
+  fn p sa skw (bf_invoke_world p f sa skw w1) = (w3, (res, subs)) ->
+  bf_finish_py p c f sa skw res subs w3 = (w5, (r, o)) ->
+  exists st,
+    gen_fb_priv_rebuild_file (lift_bf fn) (bs (bf0 p c f sa skw)) w1
+    = ((bs st, w5), match r with inl _ => inl tt | inr e => inr e end)
+    /\ freeze st = o /\ r_raised st = op_raised o /\ (forall v, r = inl v -> r_return_value st = v).
+Proof.
+  intros p c f sa skw fn w1 w3 res subs w5 r o Hfn Hfin.
+  unfold gen_fb_priv_rebuild_file, gen_fb_priv_call_and_sanitize_return_value, call_user.
+  unfold bf0, new_BuildFileOperation. bm_unfold. cbv zeta beta iota.
+  cbn [b_op r_kind r_filename r_args r_kwargs r_func_name fst snd lift_bf].
+  unfold bf_invoke_world in Hfn. rewrite Hfn. cbn [b_op b_finished_build].
+  unfold bf_finish_py in Hfin.
+  assert (Hfail : forall rv e w, bf_fail_py p c f sa skw subs rv e w = (w5, (r, o)) ->
+    exists st, (let (p0, s) := gen_fb_priv_handle_error_building_file
+                  (bs {| r_kind := KBuildFile; r_filename := p; r_file_comparison := c; r_func_name := f; r_args := sa;
+                         r_kwargs := skw; r_suboperations := subs; r_return_value := rv;
+                         r_file_comparison_result := PNone; r_raised := false; r_setup_failed := false;
+                         r_is_finished := false |}) w in
+                let (b', w') := p0 in
+                match s with inl _ => ((b', w'), @inr unit exn e) | inr e0 => ((b', w'), inr e0) end)
+               = ((bs st, w5), match r with inl _ => inl tt | inr e => inr e end)
+               /\ freeze st = o /\ r_raised st = op_raised o /\ (forall v, r = inl v -> r_return_value st = v)).
+  { intros rv e w Hf. destruct (rebuild_fail_path _ _ _ _ _ _ _ false _ _ _ _ _ Hf) as (st' & e' & E & Hr & Hfz & Hra).
+    exists st'. unfold bbind, braise in E. rewrite E. subst r. repeat split; auto.
+    - rewrite Hra. unfold bf_fail_py in Hf. cbv zeta in Hf.
+      destruct ((try_to_remove_file p;;; m_bd_error p;;; new_finish_building_file p (OBuildFile p c f sa skw subs rv PNone true false)) w)
+        as [w' [u|e1]]; inversion Hf; reflexivity.
+    - intros v Hv; discriminate. }
+  destruct res as [v|e].
+  - unfold sanitize_m. destruct (sanitize v) as [sv|]; unfold ret, raise; rsimp.
+    + rewrite gen_fb_priv_noneable_file_comparison_result_eq.
+      destruct (noneable_cmp p c w3) as [w4 [cmp|e]]; rsimp.
+      * destruct cmp; rsimp; try (apply Hfail; exact Hfin);
+          (destruct (new_finish_building_file p _ w4) as [w6 [[]|e]] eqn:E;
+           [ inversion Hfin; subst; eexists; split; [reflexivity|]; repeat split; intros v0 Hv; inversion Hv; reflexivity
+           | unfold new_finish_building_file, modify in E; discriminate ]).
+      * apply Hfail; exact Hfin.
+    + cbn [is_type]. apply Hfail; exact Hfin.
+  - apply Hfail; exact Hfin.
+Qed.
+
+(* the record before build_file_with_comparison / subbuild marks it raised + setup_failed *)
+Definition unmark (o : op) : op :=
+  match o with
+  | OBuildFile p c f a k s r cr _ _ => OBuildFile p c f a k s r cr false false
+  | OSubbuild f a k s r _ _ => OSubbuild f a k s r false false
+  | OSimple _ _ _ => o
+  end.
+
+(* _try_to_reuse_cached_file, against the model's lookup + bf_reuse (Proofs/BuildFileLaws.v): the fields of the
+   cached record are copied into the builder's record before use_cached_operation can fail *)
+Lemma gen_fb_priv_try_to_reuse_cached_file_eq : forall p c f sa skw w, old_typed (w_old w) ->
+  let o0 := bf0 p c f sa skw in
+  gen_fb_priv_try_to_reuse_cached_file (bs o0) w =
+  match (cached <- build_file_cache_lookup p f sa skw ;; bf_reuse p c f sa skw cached) w with
+  | (w1, inr e) => ((bs o0, w1), inr e)
+  | (w1, inl None) => ((bs o0, w1), inl false)
+  | (w1, inl (Some (inl o))) => ((bs (opr_of o true), w1), inl true)
+  | (w1, inl (Some (inr (e, o)))) => ((bs (opr_of (unmark o) true), w1), inr e)
+  end.
+Proof.
+  intros p c f sa skw w Hty o0.
+  unfold gen_fb_priv_try_to_reuse_cached_file. unfold bbind at 1.
+  rewrite gen_fb_priv_build_file_cache_lookup_eq by (try reflexivity; exact Hty).
+  subst o0. unfold bf0, new_BuildFileOperation. rsimp. unfold lift at 1. unfold bind at 1.
+  destruct (build_file_cache_lookup p f sa skw w) as [w1 [[co|]|e]] eqn:L; [| reflexivity | reflexivity].
+  pose proof (build_file_cache_lookup_complex _ _ _ _ _ _ _ L) as Hco.
+  unfold bf_reuse. bm_unfold. cbv beta iota zeta. rsimp.
+  rewrite gen_fb_priv_noneable_file_comparison_result_eq. unfold bind at 1.
+  destruct (noneable_cmp p c w1) as [w2 [cmp|e]]; [|reflexivity].
+  destruct cmp; try reflexivity;
+    (rewrite gen_fb_priv_apply_cached_suboperations_eq by exact Hco; unfold bind at 1;
+     destruct (apply_cached_subs_of co w2) as [w3 [[]|e]]; [|reflexivity];
+     destruct co as [q r e | p' c' f' a' k' subs' r' cr' ra' sf' | f' a' k' subs' r' ra' sf']; [destruct Hco| |];
+     rsimp; cbv zeta; unfold bind, attempt, ret;
+     (match goal with |- context [new_use_cached_operation ?o w3] =>
+        destruct (new_use_cached_operation o w3) as [w4 [[]|e]] end); reflexivity).
+Qed.
+
+Lemma bf_reuse_complex : forall p c f sa skw cached w w' x,
+  bf_reuse p c f sa skw cached w = (w', inl (Some x)) ->
+  match x with inl o => is_complex o | inr (_, o) => is_complex o end.
+Proof.
+  intros p c f sa skw cached w w' x H. unfold bf_reuse in H. destruct cached as [co|]; [|discriminate].
+  rewrite og_bind_unf in H. destruct (noneable_cmp p c w) as [w1 [cmp|e]]; [|discriminate].
+  destruct cmp; try discriminate; cbv zeta in H; rewrite og_bind_unf in H;
+    (destruct (apply_cached_subs_of co w1) as [w2 [[]|e]]; [|discriminate]);
+    rewrite og_bind_unf, og_attempt_unf in H;
+    (match type of H with context [new_use_cached_operation ?o w2] =>
+       destruct (new_use_cached_operation o w2) as [w3 [[]|e]] end);
+    inversion H; subst; exact I.
+Qed.
+
+(* everything before the user function is called, as the Python runs it.  Differs from bf_setup (BuildFileLaws.v =
+   the setup of Model/Builder.v) in one place: when use_cached_operation fails, BuildDirs.error_building_file is
+   called once, and if that fails too the record keeps the fields copied from the cached record *)
+Definition bf_setup_py (p : path) (c : cmpmode) (f : string) (sa skw : pyval) : M (option (op + exn * op)) :=
+  new_assert_no_file p ;;;
+  icf <- is_cache_file p ;;
+  (if icf then raise (XRuntime RCacheFileTarget) else ret tt) ;;;
+  created <- prepare_file_creation p ;;
+  locked <- m_bd_started p created ;;
+  r <- attempt (cached <- build_file_cache_lookup p f sa skw ;; bf_reuse p c f sa skw cached) ;;
+  match r with
+  | inr e => m_bd_error p ;;; raise e
+  | inl (Some (inl o)) => ret (Some (inl o))
+  | inl (Some (inr (e, o))) =>
+      x <- attempt (m_bd_error p) ;;
+      ret (Some (inr (match x with inl _ => e | inr e' => e' end, o)))
+  | inl None => catch (bf_claim p) (fun e => m_bd_error p ;;; raise e)
+  end.
+
+(* the previous cache is not touched before the lookup *)
+Lemma prepare_file_creation_old : forall p w w1 r, prepare_file_creation p w = (w1, r) -> w_old w1 = w_old w.
+Proof. intros p w w1 r H. exact (proj1 (prepare_file_creation_fs p w w1 r H)). Qed.
+
+Lemma gen_fb_priv_build_file_eq : forall p c f sa skw fn w, old_typed (w_old w) ->
+  let o0 := bf0 p c f sa skw in
+  gen_fb_priv_build_file (lift_bf fn) (bs o0) w =
+  match bf_setup_py p c f sa skw w with
+  | (w1, inr e) => ((bs o0, w1), inr e)
+  | (w1, inl (Some (inl o))) => ((bs (opr_of o true), w1), inl (op_ret o))
+  | (w1, inl (Some (inr (e, o)))) => ((bs (opr_of (unmark o) true), w1), inr e)
+  | (w1, inl None) =>
+      bbind (gen_fb_priv_rebuild_file (lift_bf fn)) (fun _ => bbind self_op (fun o => bret (r_return_value o))) (bs o0) w1
+  end.
+Proof.
+  intros p c f sa skw fn w Hty o0.
+  unfold gen_fb_priv_build_file, bf_setup_py.
+  unfold bbind at 1. change (self_op_bf (bs o0) w) with ((bs o0, w), @inl opr exn o0). cbv beta iota zeta.
+  unfold bbind at 1. rewrite gen_fb_priv_assert_build_file_call_valid_eq by reflexivity.
+  change (r_filename o0) with p. unfold lift at 1.
+  mred.
+  destruct (new_assert_no_file p w) as [wa [[]|e]] eqn:Ea; [|reflexivity].
+  assert (Oa : w_old wa = w_old w).
+  { unfold new_assert_no_file, bind, get in Ea. destruct (cache_has_file (w_new w) p); inversion Ea; reflexivity. }
+  mred. unfold is_cache_file at 1 2.
+  destruct (path_eqb p (w_cachefile wa)); [reflexivity|]. mred.
+  unfold bbind at 1. change (self_op_bf (bs o0) wa) with ((bs o0, wa), @inl opr exn o0). cbv beta iota zeta.
+  change (r_filename o0) with p.
+  unfold bbind at 1. unfold lift at 1.
+  destruct (prepare_file_creation p wa) as [wb [created|e]] eqn:Eb; [|reflexivity].
+  pose proof (prepare_file_creation_old _ _ _ _ Eb) as Ob.
+  mred. unfold bbind at 1. unfold lift at 1.
+  unfold m_bd_started at 1 2. destruct (bd_started (w_bd wb) p created) as [bd' locked] eqn:Ebd.
+  set (wc := set_bd bd' wb).
+  assert (Hc : old_typed (w_old wc)) by (subst wc; cbn [w_old set_bd]; rewrite Ob, Oa; exact Hty).
+  mred.
+  unfold bbind at 1. unfold battempt at 1. unfold bbind at 1. unfold lift at 1. mred.
+  unfold bbind at 1.
+  pose proof (gen_fb_priv_try_to_reuse_cached_file_eq p c f sa skw wc Hc) as Hr. cbv zeta in Hr.
+  rewrite og_bind_unf in Hr. fold o0 in Hr. rewrite Hr. clear Hr.
+  destruct (build_file_cache_lookup p f sa skw wc) as [wd [cached|e]].
+  2:{ unfold bbind, lift, braise. mred. destruct (m_bd_error p wd) as [we [[]|e']]; reflexivity. }
+  destruct (bf_reuse p c f sa skw cached wd) as [we [[[o|[e o]]|]|e]] eqn:Er.
+  - pose proof (bf_reuse_complex _ _ _ _ _ _ _ _ _ Er) as Hco. cbn beta iota in Hco.
+    unfold bbind, self_op, bret. cbn [b_op bs].
+    destruct o; [destruct Hco| |]; reflexivity.
+  - unfold bbind, lift, braise. mred. destruct (m_bd_error p we) as [wf [[]|e']]; reflexivity.
+  - unfold bf_claim. mred. unfold bbind at 1. unfold lift at 1.
+    destruct (new_start_building_file p we) as [wf [[]|e]].
+    2:{ mred. unfold bbind, lift, braise. destruct (m_bd_error p wf) as [wg [[]|e']]; reflexivity. }
+    mred. unfold bbind at 1. unfold battempt at 1. unfold bbind at 1. unfold bbind at 1. unfold lift at 1.
+    unfold get at 1 2. cbv beta iota.
+    destruct (isfile (w_fs wf) p).
+    + unfold lift at 1. mred.
+      destruct (back_up_and_remove p wf) as [wg [b|e]]; mred.
+      * reflexivity.
+      * unfold bbind at 1. unfold lift at 1. unfold new_abort_building_file at 1 2. unfold modify. cbv beta iota.
+        unfold braise at 1. unfold bbind, lift, braise. mred.
+        match goal with |- context [m_bd_error p ?x] => destruct (m_bd_error p x) as [wh [[]|e']] end; reflexivity.
+    + mred. reflexivity.
+  - unfold bbind, lift, braise. mred. destruct (m_bd_error p we) as [wf [[]|e']]; reflexivity.
+Qed.
+
+(* _rebuild_file *)
+Definition bf_rebuild_py (p : path) (c : cmpmode) (f : string) (sa skw : pyval)
+           (fn : path -> pyval -> pyval -> body) (w1 : world) : world * (outcome * op) :=
+  let '(w3, (res, subs)) := fn p sa skw (bf_invoke_world p f sa skw w1) in
+  bf_finish_py p c f sa skw res subs w3.
+
+(* build_file_with_comparison as the Python runs it, in the shape of m_build_file (BuildFileLaws.m_build_file_unfold) *)
+Definition m_build_file_py (p : path) (c : cmpmode) (f : string) (a kw : pyval)
+           (fn : path -> pyval -> pyval -> body) (w : world) : world * (outcome * option op) :=
+  match sanitize a, sanitize kw with
+  | Some sa, Some skw =>
+      match bf_setup_py p c f sa skw w with
+      | (w1, inr e) => (w1, (inr e, Some (OBuildFile p c f sa skw [] PNone PNone true true)))
+      | (w1, inl (Some (inl o))) => (w1, (inl (op_ret o), Some o))
+      | (w1, inl (Some (inr (e, o)))) => (w1, (inr e, Some o))
+      | (w1, inl None) => let '(w5, (r, o)) := bf_rebuild_py p c f sa skw fn w1 in (w5, (r, Some o))
+      end
+  | _, _ => (w, (inr XType, None))
+  end.
+
+Definition reuse_shape (x : op + exn * op) : Prop :=
+  match x with
+  | inl o => is_complex o /\ op_raised o = false
+  | inr (_, o) => is_complex o /\ op_raised o = true /\ op_setup_failed o = true
+  end.
+
+Lemma bf_reuse_shape : forall p c f sa skw cached w w' x,
+  bf_reuse p c f sa skw cached w = (w', inl (Some x)) -> reuse_shape x.
+Proof.
+  intros p c f sa skw cached w w' x H. unfold bf_reuse in H. destruct cached as [co|]; [|discriminate].
+  rewrite og_bind_unf in H. destruct (noneable_cmp p c w) as [w1 [cmp|e]]; [|discriminate].
+  destruct cmp; try discriminate; cbv zeta in H; rewrite og_bind_unf in H;
+    (destruct (apply_cached_subs_of co w1) as [w2 [[]|e]]; [|discriminate]);
+    rewrite og_bind_unf, og_attempt_unf in H;
+    (match type of H with context [new_use_cached_operation ?o w2] =>
+       destruct (new_use_cached_operation o w2) as [w3 [[]|e]] end);
+    inversion H; subst; cbn; auto.
+Qed.
+
+Lemma bf_setup_py_shape : forall p c f sa skw w w1 x,
+  bf_setup_py p c f sa skw w = (w1, inl (Some x)) -> reuse_shape x.
+Proof.
+  intros p c f sa skw w w1 x H. unfold bf_setup_py in H. revert H. mred.
+  destruct (new_assert_no_file p w) as [wa [[]|e]]; [|discriminate]. mred.
+  unfold is_cache_file at 1. destruct (path_eqb p (w_cachefile wa)); mred; [discriminate|].
+  destruct (prepare_file_creation p wa) as [wb [created|e]]; [|discriminate]. mred.
+  destruct (m_bd_started p created wb) as [wc [locked|e]]; [|discriminate]. mred.
+  destruct (build_file_cache_lookup p f sa skw wc) as [wd [cached|e]].
+  2:{ mred. destruct (m_bd_error p wd) as [we [[]|e']]; discriminate. }
+  destruct (bf_reuse p c f sa skw cached wd) as [we [[[o|[e o]]|]|e]] eqn:Er; mred.
+  - intro H. inversion H; subst. exact (bf_reuse_shape _ _ _ _ _ _ _ _ _ Er).
+  - destruct (m_bd_error p we) as [wf [[]|e']]; intro H; inversion H; subst; exact (bf_reuse_shape _ _ _ _ _ _ _ _ _ Er).
+  - unfold bf_claim. mred. destruct (new_start_building_file p we) as [wf [[]|e]]; mred.
+    + unfold get at 1. cbv beta iota. destruct (isfile (w_fs wf) p); mred.
+      * destruct (back_up_and_remove p wf) as [wg [b|e]]; mred; [discriminate|].
+        unfold new_abort_building_file at 1. unfold modify. cbv beta iota. mred.
+        match goal with |- context [m_bd_error p ?x] => destruct (m_bd_error p x) as [wh [[]|e']] end; discriminate.
+      * discriminate.
+    + destruct (m_bd_error p wf) as [wg [[]|e']]; discriminate.
+  - destruct (m_bd_error p we) as [wf [[]|e']]; discriminate.
+Qed.
+
+Lemma bf_finish_py_raised : forall p c f sa skw res subs w3 w5 r o,
+  bf_finish_py p c f sa skw res subs w3 = (w5, (r, o)) ->
+  is_complex o /\ op_raised o = match r with inl _ => false | inr _ => true end.
+Proof.
+  intros p c f sa skw res subs w3 w5 r o H.
+  assert (Hf : forall rv e w, bf_fail_py p c f sa skw subs rv e w = (w5, (r, o)) ->
+                 is_complex o /\ op_raised o = match r with inl _ => false | inr _ => true end).
+  { intros rv e w Hf. unfold bf_fail_py in Hf. cbv zeta in Hf.
+    destruct ((try_to_remove_file p;;; m_bd_error p;;; new_finish_building_file p (OBuildFile p c f sa skw subs rv PNone true false)) w)
+      as [w' [u|e1]]; inversion Hf; subst; split; [exact I|reflexivity|exact I|reflexivity]. }
+  unfold bf_finish_py in H. destruct res as [v|e]; [|eapply Hf; eauto].
+  destruct (sanitize v) as [sv|]; [|eapply Hf; eauto].
+  destruct (noneable_cmp p c w3) as [w4 [cmp|e]]; [|eapply Hf; eauto].
+  destruct cmp; try (eapply Hf; eauto; fail);
+    (destruct (new_finish_building_file p _ w4) as [w6 u]; inversion H; subst; split; [exact I|reflexivity]).
+Qed.
+
+Lemma opr_of_ret : forall o fin, is_complex o -> r_return_value (opr_of o fin) = op_ret o.
+Proof. intros [| |] fin H; [destruct H|reflexivity|reflexivity]. Qed.
+Lemma opr_of_raised : forall o fin, is_complex o -> r_raised (opr_of o fin) = op_raised o.
+Proof. intros [| |] fin H; [destruct H|reflexivity|reflexivity]. Qed.
+Lemma freeze_finished : forall st b, freeze (set_r_is_finished st b) = freeze st.
+Proof. intros. unfold freeze. reflexivity. Qed.
+Lemma mark_unmark : forall o fin, is_complex o -> op_raised o = true -> op_setup_failed o = true ->
+  freeze (set_r_is_finished (set_r_setup_failed (set_r_raised (opr_of (unmark o) fin) true) true) true) = o.
+Proof. intros [| |] fin H Hr Hs; [destruct H| |]; cbn in *; subst; reflexivity. Qed.
+
+(* build_file_with_comparison: what the generated routine does to the world, the value it returns or the exception it
+   raises, and the record it appends to the caller's suboperations, are those of m_build_file_py *)
+Theorem gen_fb_build_file_with_comparison_eq : forall p c f fn a kw b w,
+  not_finished b -> old_typed (w_old w) ->
+  gen_fb_build_file_with_comparison p c f (lift_bf fn) a kw b w
+  = let '(w1, (r, o)) := m_build_file_py p c f a kw fn w in ((app_sub b o, w1), r).
+Proof.
+  intros p c f fn a kw b w Hb Hty.
+  unfold gen_fb_build_file_with_comparison, m_build_file_py.
+  unfold bbind at 1. rewrite gen_fb_priv_assert_not_finished_ok by exact Hb. cbv zeta.
+  unfold bbind at 1. unfold lift at 1. rewrite gen_fb_priv_sanitize_args_eq.
+  destruct (sanitize a) as [sa|]; [destruct (sanitize kw) as [skw|]|]; [| destruct b; reflexivity | destruct b; reflexivity].
+  cbn [fst snd]. fold (bf0 p c f sa skw).
+  unfold bbind at 1. unfold run_sub at 1.
+  change {| b_op := Some (bf0 p c f sa skw); b_finished_build := false |} with (bs (bf0 p c f sa skw)).
+  rewrite (gen_fb_priv_build_file_eq p c f sa skw fn w Hty).
+  destruct (bf_setup_py p c f sa skw w) as [w1 [[[o|[e o]]|]|e]] eqn:Es.
+  - destruct (bf_setup_py_shape _ _ _ _ _ _ _ _ Es) as [Hco Hra].
+    cbn [b_op bs fst snd]. unfold bbind. rewrite gen_fb_priv_append_suboperation_ok by exact Hb.
+    unfold bret. rewrite freeze_finished, freeze_opr_of by exact Hco.
+    cbn [r_return_value set_r_is_finished]. rewrite opr_of_ret by exact Hco. reflexivity.
+  - destruct (bf_setup_py_shape _ _ _ _ _ _ _ _ Es) as (Hco & Hra & Hsf).
+    cbn [b_op bs fst snd].
+    assert (Hu : r_raised (opr_of (unmark o) true) = false) by (destruct o; [destruct Hco| |]; reflexivity).
+    rewrite Hu. cbn [negb]. unfold bbind. rewrite gen_fb_priv_append_suboperation_ok by exact Hb.
+    rewrite mark_unmark by assumption. reflexivity.
+  - unfold bf_rebuild_py.
+    destruct (fn p sa skw (bf_invoke_world p f sa skw w1)) as [w3 [res subs]] eqn:Efn.
+    destruct (bf_finish_py p c f sa skw res subs w3) as [w5 [r o]] eqn:Efin.
+    destruct (gen_fb_priv_rebuild_file_eq _ _ _ _ _ _ _ _ _ _ _ _ _ Efn Efin) as (st & Eg & Hfz & Hra & Hv).
+    destruct (bf_finish_py_raised _ _ _ _ _ _ _ _ _ _ _ Efin) as [Hco Hro].
+    unfold bbind at 1. rewrite Eg. destruct r as [v|e].
+    + unfold bbind at 1. unfold self_op at 1. cbn [b_op bs fst snd]. unfold bret at 1. cbn [b_op bs fst snd].
+      unfold bbind. rewrite gen_fb_priv_append_suboperation_ok by exact Hb.
+      unfold bret. rewrite freeze_finished, Hfz. cbn [r_return_value set_r_is_finished].
+      rewrite (Hv v eq_refl). reflexivity.
+    + cbn [b_op bs fst snd]. rewrite Hra, Hro. cbn [negb].
+      unfold bbind. rewrite gen_fb_priv_append_suboperation_ok by exact Hb.
+      rewrite freeze_finished, Hfz. reflexivity.
+  - unfold bf0, new_BuildFileOperation. cbn [b_op bs fst snd]. rsimp. cbn [negb].
+    unfold bbind. rewrite gen_fb_priv_append_suboperation_ok by exact Hb. reflexivity.
+Qed.
+
+Theorem gen_fb_build_file_eq : forall p f fn a kw b w,
+  not_finished b -> old_typed (w_old w) ->
+  gen_fb_build_file p f (lift_bf fn) a kw b w
+  = let '(w1, (r, o)) := m_build_file_py p METADATA f a kw fn w in ((app_sub b o, w1), r).
+Proof. intros. apply gen_fb_build_file_with_comparison_eq; assumption. Qed.
+
+(* a finished builder: RuntimeError, nothing else happens (Model/Run.v: the [stale] flag of BuildFile) *)
+Lemma gen_fb_build_file_with_comparison_stale : forall p c f func a kw b w, ~ not_finished b ->
+  gen_fb_build_file_with_comparison p c f func a kw b w = ((b, w), inr (XRuntime RFinished)).
+Proof.
+  intros. unfold gen_fb_build_file_with_comparison. unfold bbind at 1.
+  rewrite gen_fb_priv_assert_not_finished_stale by assumption. reflexivity.
+Qed.
+
+(* ================= m_build_file_py against the hand-written m_build_file ================= *)
+
+(* (1) the return value of a function that did not produce its file.  Python: `operation.return_value = <sanitized
+   value>` comes first, then the output file is examined; if it is missing (or examining it raises) the record is
+   marked raised, stored in the new cache and appended with the return value still in it (and Cache.write puts it in
+   the cache file: "returnValue": 5, "raised": true).  Model/Builder.v builds that record with return value None. *)
+Definition no_kept_return (p : path) (c : cmpmode) (res : outcome) (w3 : world) : Prop :=
+  match res with
+  | inr _ => True
+  | inl v => match sanitize v with
+             | None => True
+             | Some sv => sv = PNone \/ exists w4 cmp, noneable_cmp p c w3 = (w4, inl cmp) /\ cmp <> PNone
+             end
+  end.
+
+Lemma bf_fail_py_eq : forall p c f sa skw subs e w,
+  (let '(w5, (r, o)) := bf_fail_py p c f sa skw subs PNone e w in (w5, (r, Some o))) = bf_fail p c f sa skw subs e w.
+Proof.
+  intros. unfold bf_fail_py, bf_fail. cbv zeta.
+  destruct ((try_to_remove_file p;;; m_bd_error p;;;
+             new_finish_building_file p (OBuildFile p c f sa skw subs PNone PNone true false)) w) as [w' [u|e']]; reflexivity.
+Qed.
+
+Lemma bf_finish_py_eq : forall p c f sa skw res subs w3, no_kept_return p c res w3 ->
+  (let '(w5, (r, o)) := bf_finish_py p c f sa skw res subs w3 in (w5, (r, Some o))) = bf_finish p c f sa skw res subs w3.
+Proof.
+  intros p c f sa skw res subs w3 H. unfold bf_finish_py, bf_finish, no_kept_return in *.
+  destruct res as [v|e]; [|apply bf_fail_py_eq].
+  destruct (sanitize v) as [sv|]; [|apply bf_fail_py_eq].
+  destruct H as [H|(w4 & cmp & E & Hc)].
+  - subst sv. destruct (noneable_cmp p c w3) as [w4 [cmp|e]]; [|apply bf_fail_py_eq].
+    destruct cmp; try apply bf_fail_py_eq; cbv zeta; destruct (new_finish_building_file p _ w4); reflexivity.
+  - rewrite E. destruct cmp; try (exfalso; apply Hc; reflexivity);
+      cbv zeta; destruct (new_finish_building_file p _ w4); reflexivity.
+Qed.
+
+(* the difference, for any world in which the output file is not there after the function returned sv <> None *)
+Lemma bf_finish_py_differs : forall p c f sa skw v sv subs w3 w4,
+  sanitize v = Some sv -> sv <> PNone -> noneable_cmp p c w3 = (w4, inl PNone) ->
+  snd (snd (bf_finish_py p c f sa skw (inl v) subs w3)) = OBuildFile p c f sa skw subs sv PNone true false /\
+  snd (snd (bf_finish p c f sa skw (inl v) subs w3)) = Some (OBuildFile p c f sa skw subs PNone PNone true false) /\
+  OBuildFile p c f sa skw subs sv PNone true false <> OBuildFile p c f sa skw subs PNone PNone true false.
+Proof.
+  intros p c f sa skw v sv subs w3 w4 Hs Hne Hc. unfold bf_finish_py, bf_finish. rewrite Hs, Hc.
+  unfold bf_fail_py, bf_fail. cbv zeta. repeat split.
+  - match goal with |- context [match ?m w4 with _ => _ end] => destruct (m w4) as [w' [u|e']] end; reflexivity.
+  - match goal with |- context [match ?m w4 with _ => _ end] => destruct (m w4) as [w' [u|e']] end; reflexivity.
+  - intro H. inversion H. apply Hne. assumption.
+Qed.
+
+(* (2) use_cached_operation fails (a record of the cached tree is already claimed) and then
+   BuildDirs.error_building_file fails too (KeyError).  Python: the handler of _build_file calls it once; the record
+   keeps the fields copied from the cached record.  Model/Builder.v: the `m_bd_error p ;;; ret ..` sits inside the
+   catch whose handler calls m_bd_error again, and the setup fails as a whole: the record is the empty one.  World and
+   exception agree. *)
+Definition bd_crash : exn := XCrash "KeyError in BuildDirs.error_building_file".
+
+Lemma m_bd_error_fails : forall p w w' e, m_bd_error p w = (w', inr e) -> w' = w /\ e = bd_crash.
+Proof. intros p w w' e H. unfold m_bd_error in H. destruct (bd_error (w_bd w) p); inversion H; split; reflexivity. Qed.
+
+Lemma bf_setup_py_eq : forall p c f sa skw w,
+  (forall w1 e o, bf_setup_py p c f sa skw w = (w1, inl (Some (inr (e, o)))) -> e <> bd_crash) ->
+  bf_setup_py p c f sa skw w = bf_setup p c f sa skw w.
+Proof.
+  intros p c f sa skw w H.
+  assert (G : forall w1 o, bf_setup_py p c f sa skw w <> (w1, inl (Some (inr (bd_crash, o)))))
+    by (intros w1 o E; exact (H _ _ _ E eq_refl)).
+  clear H. revert G. unfold bf_setup_py, bf_setup. mred.
+  destruct (new_assert_no_file p w) as [wa [[]|e]]; [|reflexivity]. mred.
+  unfold is_cache_file. destruct (path_eqb p (w_cachefile wa)); mred; [reflexivity|].
+  destruct (prepare_file_creation p wa) as [wb [created|e]]; [|reflexivity]. mred.
+  destruct (m_bd_started p created wb) as [wc [locked|e]]; [|reflexivity]. mred.
+  destruct (build_file_cache_lookup p f sa skw wc) as [wd [cached|e]]; mred; [|reflexivity].
+  destruct (bf_reuse p c f sa skw cached wd) as [we [[[o|[e o]]|]|e]]; mred; try reflexivity.
+  destruct (m_bd_error p we) as [wf [[]|e']] eqn:Eb; mred; [reflexivity|].
+  intro G. destruct (m_bd_error_fails _ _ _ _ Eb) as [-> ->]. exfalso. exact (G _ _ eq_refl).
+Qed.
+
+Lemma bf_setup_py_differs : forall p c f sa skw w w1 o,
+  bf_setup_py p c f sa skw w = (w1, inl (Some (inr (bd_crash, o)))) ->
+  bf_setup p c f sa skw w = (w1, inr bd_crash).
+Proof.
+  intros p c f sa skw w w1 o. unfold bf_setup_py, bf_setup. mred.
+  destruct (new_assert_no_file p w) as [wa [[]|e]]; [|discriminate]. mred.
+  unfold is_cache_file. destruct (path_eqb p (w_cachefile wa)); mred; [discriminate|].
+  destruct (prepare_file_creation p wa) as [wb [created|e]]; [|discriminate]. mred.
+  destruct (m_bd_started p created wb) as [wc [locked|e]]; [|discriminate]. mred.
+  destruct (build_file_cache_lookup p f sa skw wc) as [wd [cached|e]]; mred.
+  2:{ destruct (m_bd_error p wd) as [we [[]|e']]; discriminate. }
+  destruct (bf_reuse p c f sa skw cached wd) as [we [[[o'|[e o']]|]|e]] eqn:Er; mred.
+  - discriminate.
+  - destruct (m_bd_error p we) as [wf [[]|e']] eqn:Eb; mred.
+    + intro H. inversion H; subst.
+      exfalso. revert Er. unfold bf_reuse. destruct cached as [co|]; [|discriminate]. mred.
+      destruct (noneable_cmp p c wd) as [w1' [cmp|e]]; [|discriminate].
+      destruct cmp; try discriminate; cbv zeta; mred;
+        (destruct (apply_cached_subs_of co w1') as [w2 [[]|e]]; [|discriminate]); mred;
+        (match goal with |- context [new_use_cached_operation ?x w2] =>
+           unfold new_use_cached_operation at 1; mred; unfold get at 1; cbv beta iota;
+           destruct (assert_no_repeats (w_new w2) x) end); mred; discriminate.
+    + destruct (m_bd_error_fails _ _ _ _ Eb) as [-> ->]. rewrite Eb. intro H. inversion H; subst. reflexivity.
+  - unfold bf_claim. mred. destruct (new_start_building_file p we) as [wf [[]|e]]; mred.
+    + unfold get at 1. cbv beta iota. destruct (isfile (w_fs wf) p); mred.
+      * destruct (back_up_and_remove p wf) as [wg [b|e]]; mred; [discriminate|].
+        unfold new_abort_building_file at 1. unfold modify. cbv beta iota. mred.
+        match goal with |- context [m_bd_error p ?x] => destruct (m_bd_error p x) as [wh [[]|e']] end; discriminate.
+      * discriminate.
+    + destruct (m_bd_error p wf) as [wg [[]|e']]; discriminate.
+  - destruct (m_bd_error p we) as [wf [[]|e']]; discriminate.
+Qed.
+
+(* away from the two situations above, the Python is the hand-written model *)
+Theorem m_build_file_py_eq : forall p c f a kw fn w,
+  (forall sa skw, sanitize a = Some sa -> sanitize kw = Some skw ->
+     (forall w1 e o, bf_setup_py p c f sa skw w = (w1, inl (Some (inr (e, o)))) -> e <> bd_crash) /\
+     (forall w1 w3 res subs, bf_setup_py p c f sa skw w = (w1, inl None) ->
+        fn p sa skw (bf_invoke_world p f sa skw w1) = (w3, (res, subs)) -> no_kept_return p c res w3)) ->
+  m_build_file_py p c f a kw fn w = m_build_file p c f a kw fn w.
+Proof.
+  intros p c f a kw fn w H. rewrite m_build_file_unfold. unfold m_build_file_py.
+  destruct (sanitize a) as [sa|]; [|reflexivity]. destruct (sanitize kw) as [skw|]; [|reflexivity].
+  destruct (H sa skw eq_refl eq_refl) as [H1 H2]. rewrite <- (bf_setup_py_eq p c f sa skw w H1).
+  destruct (bf_setup_py p c f sa skw w) as [w1 [[[o|[e o]]|]|e]]; try reflexivity.
+  unfold bf_rebuild_py, bf_rebuild.
+  destruct (fn p sa skw (bf_invoke_world p f sa skw w1)) as [w3 [res subs]] eqn:Efn.
+  apply bf_finish_py_eq. exact (H2 _ _ _ _ eq_refl Efn).
+Qed.
+
+Corollary gen_fb_build_file_with_comparison_model : forall p c f fn a kw b w,
+  not_finished b -> old_typed (w_old w) ->
+  (forall sa skw, sanitize a = Some sa -> sanitize kw = Some skw ->
+     (forall w1 e o, bf_setup_py p c f sa skw w = (w1, inl (Some (inr (e, o)))) -> e <> bd_crash) /\
+     (forall w1 w3 res subs, bf_setup_py p c f sa skw w = (w1, inl None) ->
+        fn p sa skw (bf_invoke_world p f sa skw w1) = (w3, (res, subs)) -> no_kept_return p c res w3)) ->
+  gen_fb_build_file_with_comparison p c f (lift_bf fn) a kw b w
+  = let '(w1, (r, o)) := m_build_file p c f a kw fn w in ((app_sub b o, w1), r).
+Proof.
+  intros. rewrite gen_fb_build_file_with_comparison_eq by assumption. rewrite m_build_file_py_eq by assumption. reflexivity.
+Qed.
+
+(* in the first situation world, exception and record all differ from the model only in the return value of the
+   record; in the second only the record differs: the world and the outcome of m_build_file_py and m_build_file agree *)
+Lemma m_build_file_py_setup_differs : forall p c f a kw fn w sa skw w1 o,
+  sanitize a = Some sa -> sanitize kw = Some skw ->
+  bf_setup_py p c f sa skw w = (w1, inl (Some (inr (bd_crash, o)))) ->
+  m_build_file_py p c f a kw fn w = (w1, (inr bd_crash, Some o)) /\
+  m_build_file p c f a kw fn w = (w1, (inr bd_crash, Some (OBuildFile p c f sa skw [] PNone PNone true true))).
+Proof.
+  intros p c f a kw fn w sa skw w1 o Ha Hk E. rewrite m_build_file_unfold. unfold m_build_file_py.
+  rewrite Ha, Hk, E, (bf_setup_py_differs _ _ _ _ _ _ _ _ E). split; reflexivity.
+Qed.
+
+(* ================= subbuild ================= *)
+
+Definition sb0 (f : string) (sa skw : pyval) : opr := new_SubbuildOperation f sa skw [] PNone false false false.
+
+Lemma gen_fb_priv_subbuild_eq : forall f sa skw fn w, old_typed (w_old w) ->
+  let o0 := sb0 f sa skw in
+  gen_fb_priv_subbuild (lift_sb fn) (bs o0) w =
+  match sb_setup f sa skw w with
+  | (w1, inr e) => ((bs o0, w1), inr e)
+  | (w1, inl (Some (inl o))) => ((bs (opr_of o true), w1), inl (op_ret o))
+  | (w1, inl (Some (inr (e, o)))) => ((bs (opr_of (unmark o) true), w1), inr e)
+  | (w1, inl None) =>
+      let '(w4, (r, oo)) := sb_rebuild f sa skw fn w1 in
+      match oo with Some o => ((bs (opr_of o true), w4), r) | None => ((bs o0, w4), r) end
+  end.
+Proof.
+  intros f sa skw fn w Hty o0.
+  unfold gen_fb_priv_subbuild, sb_setup. cbv zeta.
+  unfold bbind at 1. change (self_op (bs o0) w) with ((bs o0, w), @inl opr exn o0). cbv beta iota.
+  change (subbuild_key (r_func_name o0) (r_args o0) (r_kwargs o0)) with (subbuild_key f sa skw).
+  set (key := subbuild_key f sa skw).
+  unfold bbind at 1. unfold lift at 1. mred.
+  destruct (new_assert_no_subbuild key w) as [wa [[]|e]] eqn:Ea; [|reflexivity].
+  assert (Oa : w_old wa = w_old w).
+  { unfold new_assert_no_subbuild, bind, get in Ea. destruct (cache_has_subbuild (w_new w) key); inversion Ea; reflexivity. }
+  unfold bbind at 1. rewrite gen_fb_priv_subbuild_cache_lookup_eq by (rewrite Oa; exact Hty).
+  change (r_func_name o0) with f. unfold lift at 1. mred.
+  destruct (subbuild_cache_lookup key f wa) as [wb [[co|]|e]] eqn:L; [| |reflexivity].
+  - pose proof (subbuild_cache_lookup_complex _ _ _ _ _ L) as Hco.
+    unfold bbind at 1. unfold lift at 1. rewrite gen_fb_priv_apply_cached_suboperations_eq by exact Hco. mred.
+    destruct (apply_cached_subs_of co wb) as [wc [[]|e]]; [|reflexivity].
+    subst o0. unfold sb0, new_SubbuildOperation.
+    destruct co as [q r e | p' c' f' a' k' subs' r' cr' ra' sf' | f' a' k' subs' r' ra' sf']; [destruct Hco| |];
+      bm_unfold; rsimp; cbv zeta beta iota; rsimp; mred;
+      (match goal with |- context [new_use_cached_operation ?x wc] =>
+         destruct (new_use_cached_operation x wc) as [wd [[]|e]] end); reflexivity.
+  - unfold bbind at 1. change (self_op (bs o0) wb) with ((bs o0, wb), @inl opr exn o0). cbv beta iota.
+    unfold bbind at 1. unfold lift at 1. mred.
+    destruct (new_start_subbuild key wb) as [wc [[]|e]]; [|reflexivity]. mred.
+    unfold sb_rebuild, sb_finish, sb_invoke_world. cbv zeta.
+    unfold gen_fb_priv_call_and_sanitize_return_value, call_user.
+    subst o0. unfold sb0, new_SubbuildOperation. bm_unfold. rsimp. cbv zeta beta iota. rsimp. unfold lift_sb.
+    destruct (fn sa skw (set_log (LInvoke f None sa skw :: w_log wc) wc)) as [w3 [res subs]].
+    rsimp. destruct res as [v|e]; rsimp.
+    + unfold sanitize_m. destruct (sanitize v) as [sv|]; unfold ret, raise; rsimp; cbn [is_type]; cbv beta iota; rsimp;
+        fold key; destruct (new_finish_subbuild key _ w3) as [w4 [[]|e]] eqn:E; try reflexivity;
+        unfold new_finish_subbuild, modify in E; cbv beta zeta in E; discriminate.
+    + fold key. destruct (new_finish_subbuild key _ w3) as [w4 [[]|e']] eqn:E; try reflexivity;
+        unfold new_finish_subbuild, modify in E; cbv beta zeta in E; discriminate.
+Qed.
+
+Lemma sb_setup_shape : forall f sa skw w w1 x, sb_setup f sa skw w = (w1, inl (Some x)) -> reuse_shape x.
+Proof.
+  intros f sa skw w w1 x. unfold sb_setup. cbv zeta. mred.
+  destruct (new_assert_no_subbuild (subbuild_key f sa skw) w) as [wa [[]|e]]; [|discriminate]. mred.
+  destruct (subbuild_cache_lookup (subbuild_key f sa skw) f wa) as [wb [[co|]|e]]; [| |discriminate]; mred.
+  - destruct (apply_cached_subs_of co wb) as [wc [[]|e]]; [|discriminate]. mred.
+    match goal with |- context [new_use_cached_operation ?o wc] =>
+      destruct (new_use_cached_operation o wc) as [wd [[]|e]] end; intro H; inversion H; subst; cbn; auto.
+  - destruct (new_start_subbuild (subbuild_key f sa skw) wb) as [wc [[]|e]]; discriminate.
+Qed.
+
+Lemma sb_rebuild_shape : forall f sa skw fn w1 w4 r oo, sb_rebuild f sa skw fn w1 = (w4, (r, oo)) ->
+  exists o, oo = Some o /\ is_complex o /\ op_raised o = match r with inl _ => false | inr _ => true end
+            /\ (forall v, r = inl v -> op_ret o = v).
+Proof.
+  intros f sa skw fn w1 w4 r oo. unfold sb_rebuild, sb_finish. cbv zeta.
+  destruct (fn sa skw (sb_invoke_world f sa skw w1)) as [w3 [res subs]].
+  destruct res as [v|e]; [destruct (sanitize v) as [sv|]|];
+    (match goal with |- context [new_finish_subbuild ?k ?o w3] => destruct (new_finish_subbuild k o w3) as [w5 u] end);
+    intro H; inversion H; subst; eexists; (split; [reflexivity|]); repeat split;
+    intros v0 Hv; inversion Hv; reflexivity.
+Qed.
+
+(* subbuild: the generated routine is the hand-written m_subbuild (no difference found) *)
+Theorem gen_fb_subbuild_eq : forall f fn a kw b w,
+  not_finished b -> old_typed (w_old w) ->
+  gen_fb_subbuild f (lift_sb fn) a kw b w
+  = let '(w1, (r, o)) := m_subbuild f a kw fn w in ((app_sub b o, w1), r).
+Proof.
+  intros f fn a kw b w Hb Hty.
+  unfold gen_fb_subbuild. rewrite m_subbuild_unfold.
+  unfold bbind at 1. rewrite gen_fb_priv_assert_not_finished_ok by exact Hb.
+  unfold bbind at 1. unfold lift at 1. rewrite gen_fb_priv_sanitize_args_eq.
+  destruct (sanitize a) as [sa|]; [destruct (sanitize kw) as [skw|]|]; [| destruct b; reflexivity | destruct b; reflexivity].
+  cbv zeta. cbn [fst snd]. fold (sb0 f sa skw).
+  unfold bbind at 1. unfold run_sub at 1.
+  change {| b_op := Some (sb0 f sa skw); b_finished_build := false |} with (bs (sb0 f sa skw)).
+  rewrite (gen_fb_priv_subbuild_eq f sa skw fn w Hty).
+  destruct (sb_setup f sa skw w) as [w1 [[[o|[e o]]|]|e]] eqn:Es.
+  - destruct (sb_setup_shape _ _ _ _ _ _ Es) as [Hco Hra].
+    cbn [b_op bs fst snd]. unfold bbind. rewrite gen_fb_priv_append_suboperation_ok by exact Hb.
+    unfold bret. rewrite freeze_finished, freeze_opr_of by exact Hco.
+    cbn [r_return_value set_r_is_finished]. rewrite opr_of_ret by exact Hco. reflexivity.
+  - destruct (sb_setup_shape _ _ _ _ _ _ Es) as (Hco & Hra & Hsf).
+    cbn [b_op bs fst snd].
+    assert (Hu : r_raised (opr_of (unmark o) true) = false) by (destruct o; [destruct Hco| |]; reflexivity).
+    rewrite Hu. cbn [negb]. unfold bbind. rewrite gen_fb_priv_append_suboperation_ok by exact Hb.
+    rewrite mark_unmark by assumption. reflexivity.
+  - destruct (sb_rebuild f sa skw fn w1) as [w4 [r oo]] eqn:Er.
+    destruct (sb_rebuild_shape _ _ _ _ _ _ _ _ Er) as (o & -> & Hco & Hra & Hv).
+    cbn [b_op bs fst snd]. destruct r as [v|e].
+    + unfold bbind. rewrite gen_fb_priv_append_suboperation_ok by exact Hb.
+      unfold bret. rewrite freeze_finished, freeze_opr_of by exact Hco.
+      cbn [r_return_value set_r_is_finished]. rewrite opr_of_ret by exact Hco. rewrite (Hv v eq_refl). reflexivity.
+    + rewrite opr_of_raised by exact Hco. rewrite Hra. cbn [negb].
+      unfold bbind. rewrite gen_fb_priv_append_suboperation_ok by exact Hb.
+      rewrite freeze_finished, freeze_opr_of by exact Hco. reflexivity.
+  - unfold sb0, new_SubbuildOperation. cbn [b_op bs fst snd]. rsimp. cbn [negb].
+    unfold bbind. rewrite gen_fb_priv_append_suboperation_ok by exact Hb. reflexivity.
+Qed.
+
+Lemma gen_fb_subbuild_stale : forall f func a kw b w, ~ not_finished b ->
+  gen_fb_subbuild f func a kw b w = ((b, w), inr (XRuntime RFinished)).
+Proof.
+  intros. unfold gen_fb_subbuild. unfold bbind at 1.
+  rewrite gen_fb_priv_assert_not_finished_stale by assumption. reflexivity.
+Qed.
+
+(* ================= the remaining routines ================= *)
+
+(* _call_and_sanitize_return_value: the user function, then JsonUtil.sanitize (TypeError -> TypeError) *)
+Lemma gen_fb_priv_call_and_sanitize_return_value_eq : forall func ua kw b w,
+  gen_fb_priv_call_and_sanitize_return_value func ua kw b w
+  = bbind (call_user func ua kw) (fun v => lift (sanitize_m v)) b w.
+Proof.
+  intros. unfold gen_fb_priv_call_and_sanitize_return_value, bbind.
+  destruct (call_user func ua kw b w) as [[b' w'] [v|e]]; [|reflexivity].
+  unfold battempt, lift, sanitize_m. destruct (sanitize v); reflexivity.
+Qed.
+
+(* read_text / read_binary hand out the file object; Model/Run.v hands out the content (user_answer) when the file is
+   there, which it is after a successful read in a sequential run *)
+Lemma read_result_user_answer : forall p c w w1 v o f,
+  m_query (QRead p c) w = (w1, (inl v, o)) -> lookup (w_fs w1) p = Some (NFile f) ->
+  snd (m_open_read p w1) = user_answer (QRead p c) (inl v) w1 /\ fst (m_open_read p w1) = w1.
+Proof. intros p c w w1 v o f _ H. unfold m_open_read, user_answer, canon_err. rewrite H. split; reflexivity. Qed.
+
+(* ill-typed previous cache: a SimpleOperation in the table of files.  Python: AttributeError (`.raised`); the
+   model's lookup answers "nothing cached" *)
+Lemma gen_fb_priv_build_file_cache_lookup_differs : forall o w q r e, r_kind o = KBuildFile ->
+  cache_get_file (w_old w) (r_filename o) = Some (OSimple q r e) ->
+  gen_fb_priv_build_file_cache_lookup (bs o) w = ((bs o, w), inr (XCrash "AttributeError")) /\
+  build_file_cache_lookup (r_filename o) (r_func_name o) (r_args o) (r_kwargs o) w = (w, inl None).
+Proof.
+  intros o w q r e K H. unfold gen_fb_priv_build_file_cache_lookup, build_file_cache_lookup. bm_unfold.
+  unfold get, bind. cbv beta iota zeta. cbn [b_op]. rewrite K. cbv beta iota. rewrite H. split; reflexivity.
+Qed.
+
+(* ================= the first difference on a concrete run ================= *)
+(* empty tree, no previous cache; build_file("/out", "bf", f) where f returns 5 without creating /out.
+   The generated code (and the implementation: cache file with "returnValue": 5, "raised": true) stores and appends
+   a record holding 5; Model/Builder.v one holding None. *)
+Definition ex_fn5 : path -> pyval -> pyval -> body := fun _ _ _ w => (w, (inl (PInt 5), [])).
+Definition ex_root : bstate := {| b_op := None; b_finished_build := false |}.
+
+Example ex_kept_return_value :
+  let g := gen_fb_build_file ["out"%string] "bf" (lift_bf ex_fn5) (PList []) (PDict []) ex_root init_world in
+  let m := m_build_file ["out"%string] METADATA "bf" (PList []) (PDict []) ex_fn5 init_world in
+  snd g = inr (XRuntime RNotCreated) /\ fst (snd m) = inr (XRuntime RNotCreated) /\
+  c_files (w_new (snd (fst g)))
+  = [(["out"%string], Some (OBuildFile ["out"%string] METADATA "bf" (PList []) (PDict []) [] (PInt 5) PNone true false))] /\
+  c_files (w_new (fst m))
+  = [(["out"%string], Some (OBuildFile ["out"%string] METADATA "bf" (PList []) (PDict []) [] PNone PNone true false))].
+Proof. vm_compute. repeat split. Qed.
